@@ -179,6 +179,23 @@ pub fn deviations() -> Vec<Dev> {
     // around the surrogate gap, the last scalar), literally and escaped
     d.push(dev("reading", "reading made of boundary scalar values".into(), |c| c.probe().reading = "\u{7f}\u{80}\u{7ff}\u{800}\u{d7ff}\u{e000}\u{ffff}\u{10000}\u{10001}\u{10ffff}".into()));
     d.push(dev("norm", "normalised form made of escaped boundary scalar values".into(), |c| c.probe().norm = "\\u{ffff}\\u{10000}\\uFFFE\\u{10FFFF}".into()));
+    // long strings in which every surrogate pair straddles an even unit offset (any block-wise decoder with an
+    // even block size meets a pair cut in two), and single pairs across the offsets 64, 128, ... 4096
+    d.push(dev("reading", "reading of one BMP unit and 700 astral characters".into(), |c| c.probe().reading = format!("あ{}", "𠮷".repeat(700))));
+    d.push(dev("norm", "normalised form with astral characters across the unit offsets 64..4096".into(), |c| {
+        let mut t = String::new();
+        let mut units = 0usize;
+        for b in [64usize, 128, 256, 512, 1024, 2048, 4096] {
+            while units < b - 1 {
+                t.push('い');
+                units += 1;
+            }
+            t.push('\u{20b9f}');
+            units += 2;
+        }
+        t.push('う');
+        c.probe().norm = t;
+    }));
     d.push(dev("norm", "normalised form differs".into(), |c| c.probe().norm = "別".into()));
     d.push(dev("norm", "normalised form with escape".into(), |c| c.probe().norm = "x\\u3042y".into()));
     d.push(dev("norm", "normalised form of 127 units".into(), |c| c.probe().norm = utf16_string(127, true)));
